@@ -1,13 +1,19 @@
 """C14 — trend, shift, scale and normalise are exact point-wise maps."""
 from tools.harness.core import Property
+from tools.props.weaver_units import WeaverUnit
 from tools.props.proc_units import TrendUnit, NormalizeUnit
+
+
+class WC14(WeaverUnit):
+    name = "weaver_c14"
 
 
 class C14(Property):
     id = "C14"
+    gen_targets = ["Funfit"]
 
     def units(self, tier):
-        return [TrendUnit(), NormalizeUnit()]
+        return [TrendUnit(), NormalizeUnit(), WC14(("C14",), ops=['trend','shift_x','shift_y','scale_x','scale_y','normalize_x','normalize_y','append'], max_len=6, queries=False)]
 
 
 PROPERTY = C14()
